@@ -1,0 +1,102 @@
+//go:build verif
+
+// Read-only accessors used by the verification harness in /verif. They are only
+// compiled with the "verif" build tag and do not change any behaviour.
+
+package expr
+
+// VerifColumn is a parsed column accessor.
+type VerifColumn struct {
+	Table  string
+	Column string
+	// Func is true if the column is a SQL function call (Column holds the raw
+	// text).
+	Func bool
+}
+
+// VerifAccessor is a parsed "Type.member" accessor.
+type VerifAccessor struct {
+	Type   string
+	Member string
+}
+
+// VerifValue is a value on the right hand side of a basic insert expression:
+// a literal if Literal is true, otherwise an accessor.
+type VerifValue struct {
+	Literal  bool
+	Text     string
+	Accessor VerifAccessor
+}
+
+// VerifSegment is one node of the parsed query.
+type VerifSegment struct {
+	// Kind is one of bypass, output, member, slice, astinsert, colinsert,
+	// basicinsert.
+	Kind    string
+	Raw     string
+	Columns []VerifColumn
+	Types   []VerifAccessor
+	Values  []VerifValue
+}
+
+func verifColumns(cs []columnAccessor) []VerifColumn {
+	out := make([]VerifColumn, 0, len(cs))
+	for _, c := range cs {
+		switch c := c.(type) {
+		case basicColumn:
+			out = append(out, VerifColumn{Table: c.table, Column: c.column})
+		case sqlFunctionCall:
+			out = append(out, VerifColumn{Column: c.raw, Func: true})
+		}
+	}
+	return out
+}
+
+func verifAccessors(ms []memberAccessor) []VerifAccessor {
+	out := make([]VerifAccessor, 0, len(ms))
+	for _, m := range ms {
+		out = append(out, VerifAccessor{Type: m.typeName, Member: m.memberName})
+	}
+	return out
+}
+
+// VerifSegments returns the nodes of the parsed query in order.
+func (pe *ParsedExpr) VerifSegments() []VerifSegment {
+	out := make([]VerifSegment, 0, len(pe.exprs))
+	for _, e := range pe.exprs {
+		switch e := e.(type) {
+		case *bypass:
+			out = append(out, VerifSegment{Kind: "bypass", Raw: e.chunk})
+		case *outputExpr:
+			out = append(out, VerifSegment{Kind: "output", Raw: e.raw,
+				Columns: verifColumns(e.sourceColumns), Types: verifAccessors(e.targetTypes)})
+		case *memberInputExpr:
+			out = append(out, VerifSegment{Kind: "member", Raw: e.raw,
+				Types: []VerifAccessor{{Type: e.ma.typeName, Member: e.ma.memberName}}})
+		case *sliceInputExpr:
+			out = append(out, VerifSegment{Kind: "slice", Raw: e.raw,
+				Types: []VerifAccessor{{Type: e.sliceTypeName}}})
+		case *asteriskInsertExpr:
+			out = append(out, VerifSegment{Kind: "astinsert", Raw: e.raw,
+				Types: verifAccessors(e.sources)})
+		case *columnsInsertExpr:
+			out = append(out, VerifSegment{Kind: "colinsert", Raw: e.raw,
+				Columns: verifColumns(e.columns), Types: verifAccessors(e.sources)})
+		case *basicInsertExpr:
+			vs := make([]VerifValue, 0, len(e.sources))
+			for _, s := range e.sources {
+				switch s := s.(type) {
+				case literal:
+					vs = append(vs, VerifValue{Literal: true, Text: s.value})
+				case memberAccessor:
+					vs = append(vs, VerifValue{Accessor: VerifAccessor{Type: s.typeName, Member: s.memberName}})
+				}
+			}
+			out = append(out, VerifSegment{Kind: "basicinsert", Raw: e.raw,
+				Columns: verifColumns(e.columns), Values: vs})
+		default:
+			out = append(out, VerifSegment{Kind: "unknown"})
+		}
+	}
+	return out
+}
